@@ -19,6 +19,7 @@ import (
 	"github.com/sanonone/kektordb/pkg/core/distance"
 	"github.com/sanonone/kektordb/pkg/engine"
 	"github.com/sanonone/kektordb/pkg/persistence"
+	"github.com/sanonone/kektordb/pkg/storage/mmap"
 	"github.com/sanonone/kektordb/pkg/verifhook"
 )
 
@@ -347,6 +348,89 @@ func TestVerifC02(t *testing.T) {
 			}
 			ctx.Eval(1)
 			ctx.Distinct(fmt.Sprintf("compress/%s/%s/pre%d/%s", metric, target, pre, strings.Join(vexec.SortedKeys(seen), ",")))
+		})
+		// A process death between the creation of an index's first arena chunk (a file
+		// zero-filled to the chunk size) and the write of its header leaves a chunk with a
+		// blank header. That instant has no hook point, so the state is built by hand: the
+		// image of a directory whose index has no arena yet, plus the blank chunk file.
+		// Recovery must come up, take new vectors, and keep them across restarts.
+		ctx.Group("blank_arena", ctx.N(12, 60), func(cs *vkit.Case) {
+			combo := vexec.AllCombos[cs.Idx%len(vexec.AllCombos)]
+			withSnapshot := (cs.Idx/len(vexec.AllCombos))%2 == 1
+			dir := cs.SubDir("data")
+			e, err := engine.Open(vexec.Options(dir))
+			if err != nil {
+				cs.Fail("open: %v", err)
+			}
+			if err := e.VCreate("ix", distance.DistanceMetric(combo[0]), 4, 8, distance.PrecisionType(combo[1]), "", nil, nil, nil); err != nil {
+				cs.Fail("VCreate: %v", err)
+			}
+			e.KVSet("k", []byte("v"))
+			if withSnapshot {
+				e.SaveSnapshot()
+			}
+			e.AOF.Flush()
+			img := cs.SubDir("img")
+			if err := vexec.ImageDir(dir, img); err != nil {
+				cs.Fail("image: %v", err)
+			}
+			e.Close()
+			chunk := filepath.Join(img, "arenas", "ix", "arena_0000.bin")
+			if err := os.MkdirAll(filepath.Dir(chunk), 0o755); err != nil {
+				cs.Fail("%v", err)
+			}
+			f, err := os.Create(chunk)
+			if err != nil {
+				cs.Fail("%v", err)
+			}
+			f.Truncate(mmap.DefaultChunkSize)
+			f.Close()
+			cs.Op("image of %s/%s index without vectors (snapshot=%v) + blank first arena chunk", combo[0], combo[1], withSnapshot)
+			e2, err := engine.Open(vexec.Options(img))
+			if err != nil {
+				cs.Fail("Open of the image with a blank arena chunk failed: %v", err)
+			}
+			defer func() {
+				if e2 != nil {
+					e2.Close()
+				}
+			}()
+			vecs := map[string][]float32{"a": {1, 0, 0}, "b": {0, 1, 0}, "c": {0.6, 0.8, 0}}
+			for _, id := range []string{"a", "b", "c"} {
+				if err := e2.VAdd("ix", id, vexec.CopyVec(vecs[id]), map[string]any{"id": id}); err != nil {
+					cs.Fail("VAdd(%s) after recovery: %v", id, err)
+				}
+			}
+			check := func(en *engine.Engine, when string) {
+				for _, id := range []string{"a", "b", "c"} {
+					d, err := en.VGet("ix", id)
+					if err != nil {
+						cs.Fail("%s: vector %s added after recovery is gone: %v", when, id, err)
+					}
+					for i := range d.Vector {
+						if diff := d.Vector[i] - vecs[id][i]; diff > 0.02 || diff < -0.02 {
+							cs.Fail("%s: vector %s reads %v, stored %v", when, id, d.Vector, vecs[id])
+						}
+					}
+				}
+			}
+			check(e2, "live")
+			for round := 0; round < 2; round++ {
+				e2.Close()
+				e2, err = engine.Open(vexec.Options(img))
+				if err != nil {
+					cs.Fail("restart %d: %v", round+1, err)
+				}
+				check(e2, fmt.Sprintf("after restart %d", round+1))
+				if round == 0 {
+					if err := e2.RewriteAOF(); err != nil {
+						cs.Fail("RewriteAOF: %v", err)
+					}
+				}
+			}
+			ctx.Count("blank_arena_images", 1)
+			ctx.Eval(1)
+			ctx.Distinct(fmt.Sprintf("blank_arena/%s/%s/%v", combo[0], combo[1], withSnapshot))
 		})
 		ctx.Group("crash", ctx.N(240, 1200), func(cs *vkit.Case) {
 			defer verifhook.Reset()
